@@ -174,7 +174,49 @@ def build(q, u, route, mk):
 #                                 shown: how = "unit" | "str" | "array" | "derived" (product of
 #                                 powers instead of a unit string)
 #   ["clear"]                     q.clear_unit_definitions()
+#   ["setting", what, value]      a setting that is NOT about units (how VALUES are printed, how
+#                                 errors are computed, plot size): a free configuration of the
+#                                 quantifier "in both unit styles" - it is NOT put back before the
+#                                 judged print, the printed unit must not depend on it
 NAMES = ["N", "J", "Pa", "Wb", "Oh", "Vv"]          # none is a symbol of X.SYMS
+# every route to the print style (enum member, its lower-case name; other spellings are rejected) and the other
+# settings; the error method is left out: with Monte Carlo str() of a derived quantity simulates
+# the VALUE (C09 / C16), which says nothing about units
+SETTINGS = ([["print_style", v] for v in ("latex", "enum:LATEX", "latex", "enum:LATEX", "scientific",
+                                           "enum:SCIENTIFIC", "enum:DEFAULT", "default")]
+            + [["sig_figs_error", n] for n in (1, 2, 4)] + [["sig_figs_value", n] for n in (1, 3, 5)]
+            + [["mc_sample_size", 1000], ["plot_dimensions", [4.0, 3.0]]])
+
+
+def gen_settings(rng):
+    """1-2 settings unrelated to units; the print style (latex / scientific) most often"""
+    out = [["setting"] + rng.choice(SETTINGS[:6] if rng.random() < 0.7 else SETTINGS)]
+    if rng.random() < 0.3:
+        out.append(["setting"] + rng.choice(SETTINGS))
+    return out
+
+
+def with_settings(rng, pre):
+    """put settings steps somewhere into a history (start, end, or in between)"""
+    pre = [list(st) for st in pre]
+    for st in gen_settings(rng):
+        pre.insert(rng.choice([0, len(pre), rng.randint(0, len(pre))]), st)
+    return pre
+
+
+def apply_setting(q, what, value):
+    if what == "print_style":
+        q.set_print_style(getattr(q.PrintStyle, value[5:]) if value.startswith("enum:") else value)
+    elif what == "sig_figs_error":
+        q.set_sig_figs_for_error(value)
+    elif what == "sig_figs_value":
+        q.set_sig_figs_for_value(value)
+    elif what == "mc_sample_size":
+        q.set_monte_carlo_sample_size(value)
+    elif what == "plot_dimensions":
+        q.set_plot_dimensions(tuple(value))
+    else:
+        raise ValueError(what)
 HISTORY_KINDS = ["named:exact", "named:power", "named:reordered", "named:part", "named:unrelated",
                  "redefined", "style-flip", "printed-before", "neighbour-before",
                  "defined-never-printed", "rejected-definitions"]
@@ -263,6 +305,8 @@ def run_pre(q, pre, log):
                 q.set_unit_style(q.UnitStyle.FRACTION if st[1] else q.UnitStyle.EXPONENTS)
             elif st[0] == "clear":
                 q.clear_unit_definitions()
+            elif st[0] == "setting":
+                apply_setting(q, st[1], st[2])
             else:
                 v = X.units_from_json(st[1])
                 if st[2] == "derived":
@@ -427,6 +471,8 @@ def pre_text(pre):
             out.append("set_unit_style({})".format("FRACTION" if st[1] else "EXPONENTS"))
         elif st[0] == "clear":
             out.append("clear_unit_definitions()")
+        elif st[0] == "setting":
+            out.append("set_{}({!r})".format(st[1], st[2]))
         else:
             out.append("show({}) of a quantity with unit {}".format(
                 st[2], text_of(X.units_from_json(st[1]))))
@@ -617,7 +663,14 @@ def run(ctx, cases, ref=False, use_model=True):
         if pre:
             dist["after a history"] += 1
             for st in pre:
-                dist["history step:" + st[0] + (":" + st[2] if st[0] == "print" else "")] += 1
+                dist["history step:" + st[0] + (":" + st[2] if st[0] == "print" else "")
+                     + (":{}={}".format(st[1], str(st[2]).replace("enum:", "").upper()
+                                        if st[1] == "print_style" else "*")
+                        if st[0] == "setting" else "")] += 1
+            if any(st[0] == "setting" and st[1] == "print_style" and "LATEX" in st[2].upper()
+                   for st in pre):
+                multi = sum(1 for _, e in u if e > 0) > 1 or sum(1 for _, e in u if e < 0) > 1
+                dist["judged under the LATEX print style" + (", unit with a dot" if multi else "")] += 1
         dist["style:" + ("fraction" if frac else "exponents")] += 1
         dist["route:" + route.split(":")[0].split("|")[0]] += 1
         if "|" in route:
@@ -695,7 +748,24 @@ def gen_cases(rng, n, arrays_every=4, tags=None):
     for i, (u, route) in enumerate(chain_cases(rng, max(20, n // 10))):
         for frac in (True, False):
             cases.append((u, frac, route, i % 3 == 0))
-    return cases
+    # FEATURE INTERACTION: settings that are not about units (print style of values, significant
+    # figures, ...) are in force at the judged print in a third of ALL cases above, whatever
+    # their route / type / history; and deliberately for multi-factor units with arrays
+    out = []
+    for c in cases:
+        c = tuple(c) + ((),) * (5 - len(c))
+        if rng.random() < 0.33:
+            c = c[:4] + (with_settings(rng, c[4]),)
+            tags["settings unrelated to units in force at the judged print"] += 1
+        out.append(c)
+    multi = [c for c in out if len(c[0]) >= 3 and not c[4]]
+    for k in range(min(len(multi), max(12, n // 40))):
+        u, frac, route, _, _ = multi[k]
+        value = ["enum:LATEX", "latex", "enum:LATEX", "enum:SCIENTIFIC"][k % 4]
+        out.append((u, frac, route, True, [["setting", "print_style", value]]))
+        tags["print style {} x multi-factor unit x arrays (deliberate)".format(
+            value.replace("enum:", "").upper())] += 1
+    return out
 
 
 def correspond(ctx):
